@@ -875,6 +875,16 @@ class Interp:
         try:
             if isinstance(func.node, ast.Lambda):
                 return self.eval(func.node.body, frame)
+            if self.is_generator(func):
+                # generator functions are evaluated EAGERLY: the body runs to its end when the generator is created and the
+                # yielded values are handed over as a list (listed among the assumptions: side effects of a generator body
+                # are not interleaved with its consumer)
+                frame.yields = []
+                try:
+                    self.exec_block(func.node.body, frame)
+                except ReturnEx:
+                    pass
+                return frame.yields
             try:
                 self.exec_block(func.node.body, frame)
             except ReturnEx as r:
@@ -883,9 +893,50 @@ class Interp:
         finally:
             self.call_depth -= 1
 
+    def is_generator(self, func):
+        g = getattr(func, "_is_gen", None)
+        if g is None:
+            def has_yield(node):
+                for ch in ast.iter_child_nodes(node):
+                    if isinstance(ch, (ast.FunctionDef, ast.AsyncFunctionDef, ast.Lambda, ast.ClassDef)):
+                        continue
+                    if isinstance(ch, (ast.Yield, ast.YieldFrom)) or has_yield(ch):
+                        return True
+                return False
+            g = has_yield(func.node) if not isinstance(func.node, ast.Lambda) else False
+            func._is_gen = g
+        return g
+
+    def e_Yield(self, e, frame):
+        f = frame
+        while f is not None and not hasattr(f, "yields"):
+            f = f.closure if f.kind == "comp" else None
+        if f is None:
+            raise Unsupported("yield outside an eagerly evaluated generator function")
+        f.yields.append(self.eval(e.value, frame) if e.value is not None else None)
+        return None
+
+    def e_YieldFrom(self, e, frame):
+        f = frame
+        while f is not None and not hasattr(f, "yields"):
+            f = f.closure if f.kind == "comp" else None
+        if f is None:
+            raise Unsupported("yield from outside an eagerly evaluated generator function")
+        f.yields.extend(self.iterate_concrete(self.eval(e.value, frame)))
+        return None
+
     # ----------------------------------------------------------------------- statements
     def exec_block(self, stmts, frame):
-        for st in stmts:
+        for i, st in enumerate(stmts):
+            if getattr(self, "guarded", False) and isinstance(st, ast.If) and not st.orelse and len(st.body) == 1 \
+                    and isinstance(st.body[0], ast.Continue) and i + 1 < len(stmts) and self._guarded_update(stmts[i + 1:]):
+                # `if c: continue` followed only by updates that can be applied under a guard: the rest of the loop body
+                # happens iff not c -- executed as ONE guarded update instead of a fork per iteration
+                neg = ast.If(test=ast.UnaryOp(op=ast.Not(), operand=st.test), body=list(stmts[i + 1:]), orelse=[])
+                ast.copy_location(neg, st)
+                ast.fix_missing_locations(neg)
+                self.exec_stmt(neg, frame)
+                return
             self.exec_stmt(st, frame)
 
     def exec_stmt(self, st, frame):
